@@ -41,6 +41,10 @@ for ev in ("a", "b"):
 OPS += [("query", "a"), ("query", "b"), ("query", None)]
 
 
+class DispatchBudgetExceeded(BaseException):
+    """Logical termination monitor: one dispatch called far more listeners than are registered."""
+
+
 class Run(object):
     def __init__(self, Dispatcher, Event):
         self.d = Dispatcher()
@@ -50,12 +54,15 @@ class Run(object):
         self.objs = {}
         self.seq = 0
         self.bad_args = []
+        self.budget = 10 ** 9
 
     def make(self, lid, stops, nested_event=None):
         run = self
 
         def listener(event, event_name, dispatcher):
             run.log.append(lid)
+            if len(run.log) > run.budget:
+                raise DispatchBudgetExceeded()
             if dispatcher is not run.d or not isinstance(event_name, str):
                 run.bad_args.append((lid, event_name))
             if nested_event is not None:
@@ -112,9 +119,14 @@ def execute(sh, Dispatcher, Event, ops, record):
             if len(regs) >= 2 and (any(m["stops"] for m in regs) or (ev in touched)):
                 interesting = True
             r.log = []
+            r.budget = 4 * before + 20  # listeners registered when the dispatch starts
             event = Event()
             try:
                 ret = r.d.dispatch(ev, event)
+            except DispatchBudgetExceeded:
+                sh.violate("dispatch-each-once", record, "step %d dispatch(%r) kept calling listeners: %d calls with %d listeners registered (first calls %r)" % (
+                    n, ev, len(r.log), len(r.model), r.log[:8]))
+                return interesting
             except Exception as e:
                 sh.violate("dispatch-raises", record, "dispatch(%r) raised %r at step %d" % (ev, e, n))
                 return interesting
